@@ -929,6 +929,7 @@ func main() {
 			fr, _ = replayOnce(worker, prop, best, false)
 		}
 		if fr != nil {
+			best.Hash = fr.Hash
 			best.Trace = fr.Trace
 			if fr.Violation != nil {
 				best.Message = fr.Violation.Msg
